@@ -35,11 +35,11 @@ def run(tier, seed):
                     'check__twin', 'twin', 60))
     runner.run_queries(PID, qs)
     rep.absorb(qs, replay)
-    ncomb = sum(1 for s in range(6) for k in range(21) for n in range(3) for r in (False, True)
+    ncomb = sum(1 for s in range(6) for k in range(len(h.KINDS)) for n in range(3) for r in (False, True)
                 if h.build(s, k, n, r, False) is not None)
     rep.functions = ['supp.linter.lint (use_name, the locals() branch, the exemption chain)', 'SourceScope.all_names',
                      'nast.extract', 'Flow.names_at']
-    rep.bounds = ['%d constructed modules: 21 binding kinds (assignment forms, walrus, for/with/except targets, comprehension variable, '
+    rep.bounds = ['%d constructed modules: 24 binding kinds (assignment forms, walrus, for/with/except targets, comprehension variable, '
                   'def, class, import forms incl. dotted / __future__ / star, three parameter kinds) x 6 scope kinds (module, class, function, '
                   'method, lambda, nested function) x name shape (plain, underscore) x read / never read' % ncomb]
     rep.assumptions = ['solver-enumerated (E): every path is one concrete module through the real lint()',
